@@ -103,6 +103,21 @@ def parseFloat (s : String) : Float :=
     if sg = "-" then -v else v
   | _ => 0.0
 
+/-- analysis kernels on complex arguments: `kerc <name> Z_exp=re;im Z_fit=re;im` -/
+def kercReply (name : String) (binds : List String) : String :=
+  let tbl : List (String × E) := [("residual", Gen.K.residual), ("boukampWeight", Gen.K.boukampWeight), ("chisqrTerm", Gen.K.chisqrTerm)]
+  match tbl.find? (·.1 = name) with
+  | none => "err no-kernel"
+  | some (_, e) =>
+    let env : List (String × CF) := binds.filterMap fun b =>
+      match b.splitOn "=" with
+      | [k, v] => match v.splitOn ";" with
+        | [re, im] => some (k, ⟨parseFloat re, parseFloat im⟩)
+        | _ => none
+      | _ => none
+    let z := e.evalF fun k => match env.find? (·.1 = k) with | some (_, v) => v | none => ⟨0, 0⟩
+    s!"ok {z.re.toBits} {z.im.toBits}"
+
 def kerReply (which sym : String) (binds : List String) : String :=
   let tbl := if which = "impl" then Gen.K.impls else Gen.K.eqns
   match tbl.find? (·.1 = sym) with
@@ -379,6 +394,7 @@ def step (st : DState) (line : String) : DState × String :=
   | "ident" :: toks => (st, identReply toks)
   | ["sel", keys] => (st, selReply keys)
   | "tlm" :: which :: a :: b :: c :: d :: e :: binds => (st, tlmReply which [a, b, c, d, e] binds)
+  | "kerc" :: name :: binds => (st, kercReply name binds)
   | "ker" :: which :: sym :: binds => (st, kerReply which sym binds)
   | "imp" :: n :: toks => (st, impReply n.toNat! toks)
   | _ => (st, "bad-op")
